@@ -8,6 +8,8 @@ import os, json, math, copy
 import vlib, femgen, femmrun, translate_tables
 from femgen import Builder, mesh_diameter, UNIT_M
 
+# theorems about the axisymmetric magnetics model AsmMAxi.v that belong to this property (the model is tied to the code by C05 / C11: props/xaxi.py)
+EXTRA_PROPERTY_FILES = ["C10_axi"]
 LEVEL = "proof"
 COQ_MODULES = ["Units"]
 ASSUMPTIONS = [
